@@ -39,7 +39,7 @@ def strategy(tier):
 
 
 def budget(tier):
-    return 2000 if tier == "quick" else 150000
+    return 2000 if tier == "quick" else 80000
 
 
 def classify(case):
